@@ -70,7 +70,7 @@ Step ==
         /\ Fresh /\ failed' = e.failed /\ distinct' = e.distinct /\ parts' = e.parts
      ELSE
      /\ UNCHANGED <<failed, distinct, parts>>
-     /\ IF oblig = <<>> \/ (e.ev = "WakeAll" /\ e.lab = oblig[1]) THEN TRUE ELSE Bad(e, "wake_all-owed-by-last-decrement-missing")
+     /\ IF oblig = <<>> \/ (e.ev = "WakeAll" /\ e.lab = oblig[1]) \/ e.ev = "Flush" THEN TRUE ELSE Bad(e, "wake_all-owed-by-last-decrement-missing")
      /\ CASE e.ev = "CountSet" ->
                /\ IF e.n = parts THEN TRUE ELSE Bad(e, "count-set-to-other-than-partitions")
                /\ rem' = [rem EXCEPT ![e.lab] = e.n]
@@ -101,6 +101,12 @@ Step ==
                /\ IF e.lab \in {"dmerge", "dagg"} => distinct THEN TRUE ELSE Bad(e, "distinct-phase-without-distinct-aggregates")
                /\ passed' = [passed EXCEPT ![e.lab] = @ \cup {e.p}]
                /\ oblig' = <<>> /\ UNCHANGED <<rem, parked>>
+          [] e.ev = "Flush" ->
+               (* without DISTINCT aggregates a partition flushes its tables in the critical section that decrements
+                  remaining_normal (HashAggOp.tla: Finalize is one action): the hook logs whether the lock was held *)
+               /\ IF e.n = 1 THEN TRUE ELSE Bad(e, "finalize-flush-outside-the-critical-section")
+               /\ IF ~distinct THEN TRUE ELSE Bad(e, "finalize-flush-with-distinct-aggregates")
+               /\ UNCHANGED <<rem, parked, passed, oblig>>
           [] OTHER -> UNCHANGED <<rem, parked, passed, oblig>>
 
 Final ==
